@@ -39,6 +39,12 @@ def obligations():
                      "the reported set is exactly 'some image within the cutoff' -- a lattice-periodic predicate, hence invariant under per-atom lattice shifts", 600, params={"cell": c, "cutoff_frac": 1.0}))
     o.append(Obl("C09.lattice.kernel_choice", "xh", "harness.c05_py", "dispatch", ["mdtraj.geometry.distance.compute_distances_core", "compute_displacements", "compute_distances_t"],
                  "3 frames, each orthorhombic or skewed (symbolic)", "a skewed frame is never sent to the diagonal-only kernel (whose output is not lattice-periodic in a skewed cell)", 300))
+    o.append(Obl("C09.lattice.wrapper_flags", "xh", "harness.c07_py", "wrapper_flags", ["mdtraj.geometry.dihedral.compute_phi/psi/omega/chi1..chi5"], "3 ARG residues; which wrapper, periodic, opt symbolic",
+                 "the minimum-image request reaches compute_dihedrals whatever the opt flag (a dropped periodic flag makes torsions depend on the stored image)", 200))
+    o.append(Obl("C09.lattice.closest_contact_cell", "xh", "harness.c07_py", "closest_contact_frame", ["mdtraj.geometry.distance.find_closest_contact"], "3 frames with three different cells; frame, periodic, presence of a cell symbolic",
+                 "the kernel receives the requested frame's coordinates and THAT frame's cell (another frame's lattice is not a symmetry of this frame)", 200))
+    o.append(Obl("C09.lattice.hbond_legs", "py", "harness.c14", "baker_hubbard", ["mdtraj.geometry.hbond._compute_bounded_geometry"], "2 frames, 1 triplet, periodic=True",
+                 "every side of the D-H...A triangle is measured with the caller's periodic flag (a raw D-H leg breaks invariance under per-atom lattice shifts)", 300, params={"n_frames": 2, "n_trip": 1, "freq": 0.4}))
     return o
 
 
